@@ -8,6 +8,7 @@ import (
 	"go/token"
 	"go/types"
 	"sort"
+	"strconv"
 	"strings"
 
 	"golang.org/x/tools/go/ssa"
@@ -27,6 +28,7 @@ func checkC07(p *Prog, r *Report) {
 	ruleC07Sym(p, a, r)
 	ruleC07Fmt(p, a, r)
 	ruleC07Lex(p, a, r)
+	ruleEvalNodesBuiltOnce(p, a, r, "R-C07-BUILT")
 }
 
 type opTok struct {
@@ -1090,6 +1092,93 @@ func isFirstOperandField(T types.Type, fld string) bool {
 		if nt, ok := st.Field(i).Type().(*types.Named); ok && nt.Obj().Name() == "IEvaluator" {
 			return st.Field(i).Name() == fld
 		}
+	}
+	return false
+}
+
+// ruleEvalNodesBuiltOnce: an expression node is written only by the parser function that allocates it. A later
+// parser stage that reaches into an already built operand and rewrites it (constant folding a sign into a literal
+// that still carries a filter chain, swapping operands …) changes what the operand means for everything that
+// wraps it: filters bind tighter than any operator only if the operand a filter chain was built around stays as parsed.
+func ruleEvalNodesBuiltOnce(p *Prog, a *Anchors, r *Report, rule string) {
+	r.Begin(rule, "expression nodes (implementers of IEvaluator) are written only by the parser function that allocates them: no later stage rewrites an already built operand", 10)
+	isEval := map[string]bool{}
+	for _, n := range a.EvalTypes {
+		isEval[n.Obj().Name()] = true
+	}
+	for _, f := range p.inPkgFuncsSorted(a.CompileReach()) {
+		cnt := map[string]int{}
+		for _, b := range f.Blocks {
+			for _, in := range b.Instrs {
+				st, ok := in.(*ssa.Store)
+				if !ok {
+					continue
+				}
+				fa, ok := st.Addr.(*ssa.FieldAddr)
+				if !ok {
+					continue
+				}
+				n := structOf(fa.X.Type())
+				if n == nil || !isEval[n.Obj().Name()] {
+					continue
+				}
+				key := p.FuncName(f) + ":" + n.Obj().Name() + "." + fieldName(fa.X.Type(), fa.Field)
+				cnt[key]++
+				if cnt[key] > 1 {
+					key += "#" + strconv.Itoa(cnt[key])
+				}
+				if allocatedHere(p, fa.X, map[ssa.Value]bool{}) {
+					r.OK(key, p.InstrPos(in), "written by its constructor")
+				} else {
+					r.Bad(key, p.InstrPos(in), "%s writes a field of a %s it did not allocate (%s): an operand built by an earlier parser stage is rewritten after the fact", p.FuncName(f), n.Obj().Name(), p.VN(fa.X))
+				}
+			}
+		}
+	}
+}
+
+// allocatedHere: v is, on every path, an object allocated by the function it is used in (through phis, also cyclic
+// ones, and local cells).
+func allocatedHere(p *Prog, v ssa.Value, seen map[ssa.Value]bool) bool {
+	if seen[v] {
+		return true // a cycle adds no new origin
+	}
+	seen[v] = true
+	switch x := v.(type) {
+	case *ssa.Alloc:
+		return true
+	case *ssa.Phi:
+		for _, e := range x.Edges {
+			if !allocatedHere(p, e, seen) {
+				return false
+			}
+		}
+		return true
+	case *ssa.UnOp:
+		if sv := localLoadValue(x); sv != nil {
+			return allocatedHere(p, sv, seen)
+		}
+		if as := p.directAllocs(x, 0); len(as) > 0 {
+			return true
+		}
+	case *ssa.Parameter:
+		// a construction helper (unexported, only called statically): judged at its call sites
+		f := x.Parent()
+		if f.Object() != nil && f.Object().Exported() || !p.staticOnly(f, nil) || len(seen) > 40 {
+			return false
+		}
+		node := p.CG.Nodes[f]
+		if node == nil || len(node.In) == 0 {
+			return false
+		}
+		idx := indexOfParam(f, x)
+		for _, e := range node.In {
+			args := callArgs(e.Site.Common())
+			if idx >= len(args) || !allocatedHere(p, args[idx], seen) {
+				return false
+			}
+		}
+		return true
 	}
 	return false
 }
